@@ -31,13 +31,15 @@
 (* 1-3 tables x table sizes {1, S-1, S, S+1, 2S+1} x lookups per table      *)
 (* {1, L-1, L, L+1, 2L+1} x repetition pattern {one entry repeated, round   *)
 (* robin, first and last only} x contents {identity inputs with duplicate   *)
-(* outputs, arbitrary 16-bit pairs with the extremes 0 / 65535}.            *)
+(* outputs, arbitrary 16-bit pairs with the extremes 0 / 65535}, plus one   *)
+(* entry looked up 2^16 - 1, 2^16, 2^16 + 5 (thorough: 2^17) times.          *)
 (* Also printed: the adversary catalogue of the C08 replay and its verdict  *)
 (* rule (KINDS, STRATEGIES, RULE).                                          *)
 (***************************************************************************)
 EXTENDS Integers, Sequences, FiniteSets, TLC, Json
 
-CONSTANTS Widths       \* subset of {"std", "wide", "narrow"}
+CONSTANTS Widths,      \* subset of {"std", "wide", "narrow"}
+          Heavy        \* numbers of lookups of ONE entry of one table (multiplicities across the 16-bit boundary)
 
 Routed(w) == IF w = "std" THEN 80 ELSE IF w = "wide" THEN 120 ELSE 30
 LU(w) == Routed(w) \div 2
@@ -66,7 +68,9 @@ Param(w, si, li, pi, fi) == [n |-> SizeClass(w)[si], m |-> LookupClass(w)[li], p
 Single(w) == {<<Param(w, si, li, pi, fi)>> : si \in 1..5, li \in 1..5, pi \in 1..3, fi \in 1..2}
 Multi(w, nt, i) == [j \in 1..nt |-> Param(w, ((i + 2 * (j - 1)) % 5) + 1, (((i \div 5) + (j - 1)) % 5) + 1,
                                          ((i + j - 1) % 3) + 1, (((i \div 3) + j - 1) % 2) + 1)]
-Family(w) == Single(w) \cup {Multi(w, 2, i) : i \in 0..49} \cup {Multi(w, 3, i) : i \in 0..24}
+\* heavy repetition: a single entry (the last of three) looked up h times, h around and beyond 2^16 (standard rows only)
+HeavyFamily(w) == IF w = "std" THEN {<<[n |-> 3, m |-> h, pat |-> "one", fl |-> "dup"]>> : h \in Heavy} ELSE {}
+Family(w) == Single(w) \cup {Multi(w, 2, i) : i \in 0..49} \cup {Multi(w, 3, i) : i \in 0..24} \cup HeavyFamily(w)
 
 VARIABLES width, params, layout
 vars == <<width, params, layout>>
@@ -144,8 +148,10 @@ TablesAdmissible == Done =>
 Emit == Done => PrintT("REPLAY " \o ToJson(Scenario(width, params, layout)))
 
 (* ---------------- adversary catalogue and verdict rule of the replay ---------------- *)
-Kinds == {"none", "out_notin", "out_other_entry", "inp_notin", "pair_other_table", "lu_slot_only", "table_cell", "table_pad",
-          "lu_pad", "mult", "noop_cell"}
+\* table_cell_unused: the output cell of an entry no lookup uses; table_and_lookup: a used entry's output cell AND the output
+\* of every lookup of that entry carry the same wrong value (Sum = LDC still holds: only the RE term rejects)
+Kinds == {"none", "out_notin", "out_other_entry", "inp_notin", "pair_other_table", "lu_slot_only", "table_cell", "table_cell_unused",
+          "table_and_lookup", "table_pad", "lu_pad", "mult", "noop_cell"}
 Strategies == {"plain", "zero_lookup", "zero_z", "one_z", "perturb_q0", "perturb_qlast", "ext_plain", "ext_shift"}
 \* sat: verdict of the satisfaction oracle (gates, copy classes, every looking slot holds a pair of ITS table, the
 \* table rows hold the table).  The oracle does not model multiplicities nor the padding slots of the table rows, so
